@@ -3,8 +3,8 @@
 META = dict(
     engine="E-KV",
     technique="Lean 4 proof (invariant 'good disk for a history prefix' preserved by deleteNodesFrom/DeleteVersionsFrom/LoadVersionForOverwriting; version-bound + collision-freeness argument that no node of an earlier version is deleted) + differential replay of every atomic DB write of real rollbacks against the model's disk",
-    level_text="Kernel-checked for every legal history and every target 1 <= h < latest: the rollback succeeds; the store is positioned on version h with exactly the tree (contents, root hash) committed at h, also after reopening; no version above h loads (eagerly or lazily); every version <= h reads back unchanged; re-applying the blocks h+1.. saves the same versions with the same root hashes. Tie: for every history and EVERY target (plus the two illegal ones) the real rootmulti.RollbackVersion runs on a copy of the DB with all writes recorded; the model's rollback must produce the same disk (deleted nodes, orphan records, roots, commit infos, latest); then reopen, load every version, lazy-load, replay the blocks and compare commit ids with the original run.",
-    level_note="Trusted: Lean kernel; harness and driver parsers. SHA-256 is a parameter (collision-freeness of the history's nodes is an explicit hypothesis Inj). The legality of consecutive working trees (GoodSteps: kept nodes come from the previous tree, new nodes carry the next version) is what C03's algorithm model provides; it is a hypothesis here. Multistore level (commit-info deletion, latest record) is covered by the tie and by the model function rollbackMS; the kernel-checked statements are per IAVL substore. Rollback to height 0 and a crash in the middle of a rollback are not covered. Pruning = nothing.",
+    level_text="Kernel-checked for every legal history and every target 1 <= h < latest: the rollback succeeds; the store is positioned on version h with exactly the tree (contents, root hash) committed at h, also after reopening; no version above h loads (eagerly or lazily); every version <= h reads back unchanged; re-applying the blocks h+1.. saves the same versions with the same root hashes and, at multistore level, reports the original commit ids for any iteration orders. Tie: for every history and EVERY target (plus the two illegal ones) the real rootmulti.RollbackVersion runs on a copy of the DB with all writes recorded; the model's rollback must produce the same disk (deleted nodes, orphan records, roots, commit infos, latest); then reopen, load every version, lazy-load, replay the blocks and compare commit ids with the original run.",
+    level_note="Trusted: Lean kernel; harness and driver parsers. SHA-256 is a parameter (collision-freeness of the history's nodes is an explicit hypothesis Inj). The legality of consecutive working trees (GoodSteps: kept nodes come from the previous tree, new nodes carry the next version) is what C03's algorithm model provides; it is a hypothesis here. The statements are proved per IAVL substore and for the whole multistore (rollback_multistore: commit infos, latest record, arbitrary iteration orders). Rollback to height 0 and a crash in the middle of a rollback are not covered. Pruning = nothing.",
 )
 
 
